@@ -172,7 +172,11 @@ def check(ctx):
                       bad_detail="on overflow try_extend must truncate(values, saved_len) (saved before the extension) and report Overflow; extracted truncates: " + ", ".join(short(c, 5) for c in tr))
         else:
             rv = [c for c in cs if callee_is(c, "[T]::reverse")]
-            okr = (probe or nprobe) and not more and len(rv) == 1
+            probed = bool(probe or nprobe) and not more
+            ctx.check(probed, "R04.1", "try_extend/success-only-after-probing-that-no-item-remains", cond_str(p)[:200], f.at(),
+                      bad_detail="try_extend returns Ok on a path that has not established that the iterator is exhausted (next() == None): remaining items would be dropped silently instead of "
+                                 "reporting Overflow; conditions on that path: [%s]" % cond_str(p)[:300])
+            okr = len(rv) == 1
             if okr:
                 tgt = peel(rv[0][3][0], ())
                 okr = callee_is(tgt, "IndexMut::index_mut") and is_values(tgt[3][0]) and match(tgt[3][1], Agg("RangeFrom::RangeFrom", lambda e: e == saved[0])) and cs.index(ext[0]) < cs.index(rv[0])
